@@ -5,9 +5,9 @@ package main
 // (The deductive part — contracts on findFeatures, GenerateFile, rewriteMessageField — is added by handParts.)
 
 import (
-	"golang.org/x/tools/go/packages"
 	"encoding/base64"
 	"fmt"
+	"golang.org/x/tools/go/packages"
 	"strings"
 
 	"google.golang.org/protobuf/proto"
